@@ -158,8 +158,11 @@ def backportMesh (p : List V3) : List V3 := (List.range p.length).map (pget p)
 
 /-! ### histories: several calls on one smoother, and a sketch that is smoothed again after it was moved -/
 
-/-- TOL² of `fix_points` -/
-def tol2 : Rat := 1 / (10 ^ 14 : Nat)
+/-- TOL² of `fix_points` (`constants.TOL` = 1 / `c15TolDen`, regenerated from the source) -/
+def tol2 : Rat := 1 / ((CBV.Gen.c15TolDen ^ 2 : Nat) : Rat)
+
+/-- default of `smooth(iterations=…)`, regenerated from the source -/
+def defaultIters : Nat := CBV.Gen.c15SmoothDefaultIters
 
 /-- one call on a `SmootherBase` -/
 inductive Op where
@@ -270,7 +273,7 @@ def handleTopo (args : List String) : Option String :=
       some s!"B{showNatList bnd} I{showNatList inn} N{";".intercalate nb} C{";".intercalate cn}"
   | _ => none
 
-/-- `c15.smooth kind cells points fixedIdx fixedPts iters` → positions after smoothing, the copied
+/-- `c15.smooth kind cells points fixedIdx fixedPts iters` (`iters` a number or `default`) → positions after smoothing, the copied
     back faces (sketch) or vertices (mesh), and the positions reconstructed from the faces -/
 def handleSmooth (args : List String) : Option String :=
   match args with
@@ -280,10 +283,10 @@ def handleSmooth (args : List String) : Option String :=
       let p ← parsePts? pts
       let fi ← parseNatList? fixedIdx
       let fp ← parsePts? fixedPts
-      let it ← parseNat? iters
+      let it ← if iters = "default" then some defaultIters else parseNat? iters
       let g : Grid := ⟨kind, cells, p.length⟩
       if !wellFormed g then some "reject" else
-      let fixed := fi ++ fixPoints (1 / (10 ^ 14 : Nat)) p fp
+      let fixed := fi ++ fixPoints tol2 p fp
       if !defined g fixed then some "undefined" else
       let q := smooth g fixed it p
       let faces := backportSketch cells q
